@@ -90,6 +90,12 @@ type world struct {
 	sticky map[[3]uint64]string // declared group -> global id found for it
 }
 
+type pendKid struct {
+	q  [3]uint64
+	id string
+	tx int
+}
+
 // the Group field of the IBTPs of group (from, tag)
 func (w *world) group(from int, g, count uint64) *pb.StringUint64Map {
 	if g == 0 {
@@ -453,6 +459,7 @@ func runHistory(line []byte) (interface{}, error) {
 			return fail("bad block")
 		}
 		var txs []pb.Transaction
+		var pendKids []pendKid
 		for _, op := range ops {
 			if len(op) == 0 {
 				return fail("empty op")
@@ -466,10 +473,7 @@ func runHistory(line []byte) (interface{}, error) {
 				if grp != nil {
 					q := [3]uint64{uint64(in(op[1])), u64(op[5]), u64(op[6])}
 					id := idOf(in(op[1]), in(op[2]), u64(op[3]))
-					if !w.kidSet[fmt.Sprint(q, id)] {
-						w.kidSet[fmt.Sprint(q, id)] = true
-						w.kids[q] = append(w.kids[q], id)
-					}
+					pendKids = append(pendKids, pendKid{q, id, len(txs)})
 				}
 				txs = append(txs, mkIBTP(in(op[1]), in(op[2]), u64(op[3]), pb.IBTP_INTERCHAIN, i64(op[4]), grp, nil, in(op[7]) != 0))
 			case 2:
@@ -544,6 +548,28 @@ func runHistory(line []byte) (interface{}, error) {
 		}
 		height := ev.Block.BlockHeader.Number
 		ob := map[string]interface{}{}
+		// receipts
+		rc := [][]int{}
+		for i, tx := range txs {
+			serial[tx.GetHash().String()] = int64(height)*1000 + int64(i)
+			r, err := c.Ledger.GetReceipt(tx.GetHash())
+			if err != nil {
+				return fail("receipt missing")
+			}
+			if r.Status == pb.Receipt_SUCCESS {
+				rc = append(rc, []int{1, 0, retClass(r.Ret)})
+				// an accepted request that carried a Group is a member of that declared group
+				for _, pk := range pendKids {
+					if pk.tx == i && !w.kidSet[fmt.Sprint(pk.q, pk.id)] {
+						w.kidSet[fmt.Sprint(pk.q, pk.id)] = true
+						w.kids[pk.q] = append(w.kids[pk.q], pk.id)
+					}
+				}
+			} else {
+				rc = append(rc, []int{0, errClass(string(r.Ret)), 0})
+			}
+		}
+		ob["rc"] = rc
 		// learn the global ids the contract uses for the declared groups seen so far (first claim wins)
 		c.ViewLdg.Clear()
 		{
@@ -568,21 +594,6 @@ func runHistory(line []byte) (interface{}, error) {
 				}
 			}
 		}
-		// receipts
-		rc := [][]int{}
-		for i, tx := range txs {
-			serial[tx.GetHash().String()] = int64(height)*1000 + int64(i)
-			r, err := c.Ledger.GetReceipt(tx.GetHash())
-			if err != nil {
-				return fail("receipt missing")
-			}
-			if r.Status == pb.Receipt_SUCCESS {
-				rc = append(rc, []int{1, 0, retClass(r.Ret)})
-			} else {
-				rc = append(rc, []int{0, errClass(string(r.Ret)), 0})
-			}
-		}
-		ob["rc"] = rc
 		if os.Getenv("IBTP_DEBUG") != "" {
 			var dbg []string
 			for _, tx := range txs {
